@@ -111,7 +111,9 @@ func c05Oracle(sp *c05Spec, out *c05Out) *c05Verdict {
 		seq uint64
 	}
 	var p4marks []p4mark
-	loopFirst := map[string]uint64{} // restarting service worker -> first invocation of its function
+	loopFirst := map[string]uint64{}  // restarting service worker -> first invocation of its function
+	startOK := map[string][]uint64{}  // module -> end events of start routines that returned nil
+	afterShutdown := map[string]int{} // module -> Status() sampled right after Shutdown returned
 	cur := func(m string) *oStop {
 		l := stops[m]
 		if len(l) == 0 {
@@ -162,6 +164,9 @@ func c05Oracle(sp *c05Spec, out *c05Out) *c05Verdict {
 				if e.Kind == "begin" {
 					starts[e.Who] = append(starts[e.Who], e.Seq)
 				}
+				if e.Kind == "end" && !fBool(e.F, "fail") {
+					startOK[e.Who] = append(startOK[e.Who], e.Seq)
+				}
 			case "stop":
 				s := cur(e.Who)
 				if s == nil {
@@ -199,6 +204,8 @@ func c05Oracle(sp *c05Spec, out *c05Out) *c05Verdict {
 			}
 		case "loopfirst":
 			loopFirst[e.Who] = e.Seq
+		case "status-after-shutdown":
+			afterShutdown[e.Who] = fInt(e.F, "status")
 		case "ctx":
 			if it := items[e.Who]; it != nil {
 				it.ctxSeen, it.ctxDone, it.ctxSeq = true, fBool(e.F, "done"), e.Seq
@@ -407,6 +414,66 @@ func c05Oracle(sp *c05Spec, out *c05Out) *c05Verdict {
 				if hit != "" {
 					add("C05:P2:service-worker-reinvoked-after:"+hit, fmt.Sprintf("%s: the function of service worker %s, which had been running (restarting) since before the stop, was invoked again (%s) after %s", m, base, it.who, hit),
 						witness(s, it, map[string]any{"first_invocation_seq": loopFirst[base]}))
+					break
+				}
+			}
+		}
+	}
+
+	// ---- P2 for the global Shutdown as a whole: when it returns, every module is offline
+	// and every item that was running on a then-online module when Shutdown was called has
+	// returned - unless the stop of that module ran into its stop timeout (the statement's
+	// "as long as each returns within the stop timeout"). This also covers modules whose
+	// stop had not even begun when Shutdown returned.
+	for _, c := range calls {
+		if c.op != "Shutdown" || c.ret == 0 {
+			continue
+		}
+		for _, ms := range sp.Mods {
+			m := ms.Name
+			var lastStart, lastStop uint64
+			for _, x := range startOK[m] {
+				if x < c.call && x > lastStart {
+					lastStart = x
+				}
+			}
+			for _, st := range stops[m] {
+				if st.ctrlset < c.call && st.ctrlset > lastStop {
+					lastStop = st.ctrlset
+				}
+			}
+			if lastStart == 0 || lastStop > lastStart {
+				continue // not online when Shutdown was called
+			}
+			timedOut := false
+			var inPass *oStop
+			for _, st := range stops[m] {
+				if st.ctrlset > c.call {
+					if inPass == nil {
+						inPass = st
+					}
+					if st.timeout != 0 {
+						timedOut = true
+					}
+				}
+			}
+			if timedOut {
+				continue
+			}
+			if inPass == nil {
+				inPass = &oStop{mod: m}
+			}
+			if st, ok := afterShutdown[m]; ok && st != statusOffline {
+				add("C05:P2:module-not-offline-after-shutdown", fmt.Sprintf("Shutdown returned while module %s, online when Shutdown was called, was not offline (status %d) and no stop timeout had fired for it", m, st),
+					witness(inPass, nil, map[string]any{"shutdown_call": c.call, "shutdown_ret": c.ret}))
+			}
+			for _, it := range order {
+				if it.mod != m || isProbe(it) || it.kind == "svc_loop" || it.begin > c.call || it.begin < lastStart {
+					continue
+				}
+				if it.end == 0 || it.end > c.ret {
+					add("C05:P2:shutdown-returned-before-work-end:"+kindClass(it.kind), fmt.Sprintf("Shutdown returned (seq %d) while %s %s of module %s, running since before Shutdown was called, had not returned, and no stop timeout had fired for %s", c.ret, kindClass(it.kind), it.who, m, m),
+						witness(inPass, it, map[string]any{"shutdown_call": c.call, "shutdown_ret": c.ret}))
 					break
 				}
 			}
